@@ -299,6 +299,9 @@ class Spinner:
             junk = self.get_junk()
             if junk:
                 raise StaleJunkError(junk)
+            # Forget the outcome of any previous run of this spinner.
+            self._success = self._UNSET
+            self._failure = self._UNSET
             self._save_signals()
             self._timeout_call = self._reactor.callLater(
                 timeout, self._timed_out, function, timeout
